@@ -30,7 +30,7 @@ HoldsReq(n, e) ==
     [] n = "ImplYamlSettings" -> ReqYamlSettings(e.win, e.res)
     [] n = "ImplGivenIsUsed" -> ReqGivenIsUsed(e.win, e.res)
     [] n = "ImplErrorsNameFile" -> ReqErrorsNameFile(e.win, e.res)
-    [] n = "ImplIrrelevantFiles" -> e.res = e.resc
+    [] n = "ImplIrrelevantFiles" -> e.resc.st = "exc" \/ e.res = e.resc
     [] n = "ConformsOutcome" -> e.res = Decide(e.win)
 
 (* A traceback is judged by ImplNoTraceback alone; a run of the whole command (lay = "main", made for the worlds  *)
